@@ -1,9 +1,9 @@
 #!/bin/bash
 # runall.sh [quick|thorough] : run every registered check in turn; prints a one-line summary per property.
 tier=${1:-quick}
-cd /verif
+cd "$(dirname "$(readlink -f "$0")")"
 for id in $(python3 -c "import json;print(' '.join(c['property_id'] for c in json.load(open('MANIFEST.json'))['checks']))"); do
   s=$(date +%s); out=$(./check $id $tier 2>&1); rc=$?; e=$(date +%s)
   echo "$id rc=$rc $((e-s))s :: $(echo "$out" | tail -1)"
-  echo "$out" | grep -E "^(VIOLATION|INCONCLUSIVE|UNCONFIRMED|KNOWN-FINDING)" | head -5
+  echo "$out" | grep -E "^(VIOLATION|INCONCLUSIVE|UNCONFIRMED|KNOWN-FINDING)" | head -12
 done
